@@ -119,7 +119,7 @@ def compile_monitor(name, srcs, cfg, extra_link=(), std="gnu++17"):
     # directory-local headers next to the sources
     local = []
     for sp in srcpaths:
-        local += glob.glob(os.path.join(os.path.dirname(sp), "*.h"))
+        local += glob.glob(os.path.join(os.path.dirname(sp), "*.h")) + glob.glob(os.path.join(os.path.dirname(sp), "*.inc"))
     stamp = sha_files(repo_core_files() + common + srcpaths + local + [os.path.join(core["dir"], "config", "ImathConfig.h")],
                       extra=json.dumps([core["flags"], srcs, list(extra_link), std, CXX]))
     stampf = binp + ".stamp"
@@ -131,11 +131,12 @@ def compile_monitor(name, srcs, cfg, extra_link=(), std="gnu++17"):
         incs += ["-I", i]
     objs = []
     procs = []
-    for (s, xf), sp in zip(srcs, srcpaths):
-        o = os.path.join(outdir, name + "." + os.path.basename(s) + ".o")
+    for k, ((s, xf), sp) in enumerate(zip(srcs, srcpaths)):
+        o = os.path.join(outdir, "%s.%d.%s.o" % (name, k, os.path.basename(s)))
         objs.append(o)
         is_c = s.endswith(".c")
-        cmd = [CC if is_c else CXX] + ([] if is_c else ["-std=" + std]) + core["flags"].split() + xf.split() + incs + ["-c", sp, "-o", o]
+        tu_std = [] if (is_c or "-std=" in xf) else ["-std=" + std]
+        cmd = [CC if is_c else CXX] + tu_std + core["flags"].split() + xf.split() + incs + ["-c", sp, "-o", o]
         procs.append((s, subprocess.Popen(cmd, stdout=subprocess.PIPE, stderr=subprocess.STDOUT)))
     for s, p in procs:
         out, _ = p.communicate()
